@@ -143,10 +143,47 @@ def run_discr(method, outk):
     return pr
 
 
+def reduce_native_cases():
+    """(case, failure-or-None): ufunc.reduce on tensor and discretized elements with integer, negative and tuple axes (2 and 3 axes), with and without out,
+    against NumPy on the underlying arrays: values, shape, dtype; for discretized elements the sub-space keeps the cell sides of the remaining axes"""
+    odl, np = _odl()
+    rng = np.random.default_rng(6)
+    spaces = [odl.rn((3, 4)), odl.rn((2, 3, 4)), odl.uniform_discr([0, 0], [1, 2], (3, 4)), odl.uniform_discr([0, 0, 0], [1, 2, 3], (2, 3, 4)), odl.uniform_discr([0, 0], [1, 2], (3, 4), dtype='float32')]
+    for sp in spaces:
+        x = sp.element(rng.uniform(0.5, 2.0, sp.shape))
+        arr = x.asarray()
+        nd = sp.ndim
+        axes = [None, 0, nd - 1, -1, -nd, (0,), (nd - 1,), (-1,), tuple(range(nd))] + ([(0, 2), (1, 2), (0, -1)] if nd == 3 else [])
+        for uf in (np.add, np.maximum, np.multiply):
+            for ax in axes:
+                case = {'space': repr(sp), 'ufunc': uf.__name__, 'axis': repr(ax)}
+                kw = {} if ax is None else {'axis': ax}
+                ref = uf.reduce(arr, **kw)
+                try:
+                    got = uf.reduce(x, **kw)
+                except Exception as e:
+                    yield case, 'np.%s.reduce(x, axis=%r) with x in %r raised %s: %s - NumPy on the array gives shape %r' % (uf.__name__, ax, sp, type(e).__name__, e, np.shape(ref))
+                    continue
+                bad = None
+                if np.shape(got) != np.shape(ref) or not np.allclose(np.asarray(got), ref) or np.asarray(got).dtype != np.asarray(ref).dtype:
+                    bad = 'np.%s.reduce(x, axis=%r) with x in %r: %r (%s), NumPy gives %r (%s)' % (uf.__name__, ax, sp, np.asarray(got), np.asarray(got).dtype, ref, np.asarray(ref).dtype)
+                elif isinstance(sp, odl.DiscretizedSpace) and hasattr(got, 'space') and isinstance(got.space, odl.DiscretizedSpace):
+                    keep = [i for i in range(nd) if i not in tuple(a % nd for a in ((0,) if ax is None else ((ax,) if isinstance(ax, int) else ax)))]
+                    if not np.allclose(got.space.cell_sides, sp.cell_sides[keep]):
+                        bad = 'np.%s.reduce(x, axis=%r): the result lives on cell sides %r, the remaining axes have %r' % (uf.__name__, ax, got.space.cell_sides, sp.cell_sides[keep])
+                yield case, bad
+
+
 def replay(ob):
     cfg = ob.get('config') or {}
     unit = ob['unit']
     odl, np = _odl()
+    if unit.startswith('reduce-native/'):
+        want = ob.get('model') or (ob.get('replay') or {}).get('case')
+        for case, bad in reduce_native_cases():
+            if case == want:
+                return {'reproduced': bool(bad), 'detail': bad or 'holds natively', 'input': case}
+        return {'reproduced': False, 'detail': 'case not found'}
     if not unit.startswith('element/') and any(k in ob.get('name', '') for k in ('no copy', 'wraps', 'shares')):
         r = replay(dict(ob, unit='element/wrapping', name=''))        # obligations about wrapping without copy: the element-factory checks (strided views) first
         if r.get('reproduced'):
